@@ -16,6 +16,7 @@ import (
 	corev1 "k8s.io/api/core/v1"
 	metav1 "k8s.io/apimachinery/pkg/apis/meta/v1"
 	"k8s.io/apimachinery/pkg/runtime"
+	"k8s.io/client-go/kubernetes"
 	"k8s.io/client-go/kubernetes/fake"
 	k8stesting "k8s.io/client-go/testing"
 	"pgregory.net/rapid"
@@ -268,6 +269,10 @@ type listCase struct {
 	RollBack bool `json:"rollBack,omitempty"`
 	// OnDelete: the StatefulSet that is being updated uses the OnDelete update strategy (pods are replaced by hand)
 	OnDelete bool `json:"onDelete,omitempty"`
+	// HTTP: the real REST client against the harness' API server (apiserver_test.go) instead of the fake clientset:
+	// lists are sorted by name and honour limit / continue; ExtraPods: that many pods of a Deployment in the namespace
+	HTTP      bool `json:"http,omitempty"`
+	ExtraPods int  `json:"extraPods,omitempty"`
 }
 
 func runList(c *listCase) []vkit.Violation {
@@ -291,7 +296,9 @@ func runList(c *listCase) []vkit.Violation {
 		}
 		objs = append(objs, set)
 	}
-	cli := fake.NewSimpleClientset(objs...)
+	var cli kubernetes.Interface
+	fcli := fake.NewSimpleClientset(objs...)
+	cli = fcli
 	mkPod := func(sts string, ord int, ip string) corev1.Pod {
 		p := corev1.Pod{ObjectMeta: metav1.ObjectMeta{Name: fmt.Sprintf("%s-%d", sts, ord), Namespace: ns, Labels: map[string]string{"sts": sts}}}
 		p.Status.PodIP = ip
@@ -303,7 +310,29 @@ func runList(c *listCase) []vkit.Violation {
 		return p
 	}
 	lastSel := ""
-	cli.PrependReactor("list", "pods", func(a k8stesting.Action) (bool, runtime.Object, error) {
+	var api *apiServer
+	if c.HTTP {
+		var sets []appsv1.StatefulSet
+		for _, o := range objs {
+			sets = append(sets, *o.(*appsv1.StatefulSet))
+		}
+		var pods []corev1.Pod
+		for _, p := range c.Pods {
+			pods = append(pods, mkPod("set", p.Ordinal, p.IP))
+		}
+		for i := 0; i < c.Others; i++ {
+			name := fmt.Sprintf("zrep%d", i)
+			pods = append(pods, mkPod(name, 1, "10.9.0.2"), mkPod(name, 0, "10.9.0.1"))
+		}
+		for i := 0; i < c.ExtraPods; i++ {
+			p := mkPod("web", i, fmt.Sprintf("10.8.0.%d", i+1))
+			p.Labels = map[string]string{"app": "web"}
+			pods = append(pods, p)
+		}
+		api, cli = newAPIServer(sets, pods)
+		defer api.close()
+	}
+	fcli.PrependReactor("list", "pods", func(a k8stesting.Action) (bool, runtime.Object, error) {
 		sel := a.(k8stesting.ListAction).GetListRestrictions().Labels.String()
 		lastSel = sel
 		l := &corev1.PodList{}
@@ -343,6 +372,9 @@ func runList(c *listCase) []vkit.Violation {
 		if err != nil {
 			add("C18/shards-error", "%v", err)
 			continue
+		}
+		if api != nil {
+			lastSel = api.firstSel
 		}
 		if lastSel != "sts=set" {
 			if c.Rolling && lastSel == "sts=zrep0" {
@@ -401,7 +433,7 @@ func runList(c *listCase) []vkit.Violation {
 func TestC18List(t *testing.T) {
 	rec := recC18()
 	rapid.Check(t, func(t *rapid.T) {
-		c := &listCase{Replicas: rapid.SampledFrom([]int{0, 1, 2, 3, 5, 7, 10, 11, 12, 15, 23, 101}).Draw(t, "replicas")}
+		c := &listCase{Replicas: rapid.SampledFrom([]int{0, 1, 2, 3, 5, 7, 10, 11, 12, 15, 23, 101, 230}).Draw(t, "replicas")}
 		k := rapid.IntRange(0, c.Replicas).Draw(t, "pods")
 		if rapid.Bool().Draw(t, "allPodsListed") {
 			k = c.Replicas
@@ -444,6 +476,10 @@ func TestC18List(t *testing.T) {
 			c.Pods = append(c.Pods, podSpec{Ordinal: o, IP: ip, Terminating: rapid.IntRange(0, 7).Draw(t, fmt.Sprintf("terminating%d", i)) == 0})
 		}
 		c.Others = rapid.IntRange(0, 2).Draw(t, "others")
+		if rapid.IntRange(0, 3).Draw(t, "http") == 0 {
+			c.HTTP = true
+			c.ExtraPods = rapid.SampledFrom([]int{0, 0, 3, 150}).Draw(t, "extraPods")
+		}
 		c.Rolling = rapid.Bool().Draw(t, "rolling")
 		c.OnDelete = c.Rolling && rapid.IntRange(0, 2).Draw(t, "onDelete") == 0
 		c.RollBack = c.Rolling && rapid.IntRange(0, 2).Draw(t, "rollBack") == 0
@@ -458,6 +494,12 @@ func TestC18List(t *testing.T) {
 		}
 		if gapAt >= 0 {
 			cls = append(cls, "list/hole-in-the-ordinals")
+		}
+		if c.HTTP {
+			cls = append(cls, "list/real-rest-client-against-an-api-server")
+			if len(c.Pods) > 100 {
+				cls = append(cls, "list/real-rest-client/more-than-100-pods")
+			}
 		}
 		rec.Eval(!identity || gapAt >= 0, vkit.Digest(string(b)), cls...)
 		if !identity && rec.WantSample() {
